@@ -175,24 +175,28 @@ Definition act (o : occ) (a : action) (w : world) : world * list cmd :=
       let w := emit (EvMark o) w in
       (emit (EvRet o ROk) (w <| resvals := aset r v (resvals w) |>), [])
   | ASpawnEntity e => (reserve e w, [CMark o])
-  | ASpawnSys s => let w := reserve s w in (w, [CMark o; CSpawnSys s])
+  | ASpawnSys s => if memN s (bound w) then (w, [CMark o]) else let w := reserve s w in (w, [CMark o; CSpawnSys s])
   | ARegister tok m s b =>
       let s := resolve w s in
       let b := map (resolve_trigger w) b in
       let w := match m with Revokable => w <| tokens := aset tok (b, s) (tokens w) |> | _ => w end in
       (w, [CMark o; CRegister b s m])
   | AOn s b =>
+      if memN s (bound w) then (w, [CMark o]) else
       let w := reserve s w in
       (w, [CMark o; CSpawnSys s; CRegister (map (resolve_trigger w) b) s Cleanup])
   | AOnPersistent s b =>
+      if memN s (bound w) then (w, [CMark o]) else
       let w := reserve s w in
       (w, [CMark o; CSpawnSys s; CRegister (map (resolve_trigger w) b) s Persistent])
   | AOnRevokable tok s b =>
+      if memN s (bound w) then (w, [CMark o]) else
       let w := reserve s w in
       let b := map (resolve_trigger w) b in
       (w <| tokens := aset tok (b, s) (tokens w) |>, [CMark o; CSpawnSys s; CRegister b s Revokable])
   | AOnce tok s b =>
       (* ReactCommands::once (react_commands.rs:319-349) *)
+      if memN s (bound w) then (w, [CMark o]) else
       let w := reserve s w in
       let b := map (resolve_trigger w) b in
       (w <| tokens := aset tok (b, s) (tokens w) |>, [CMark o; CRegister b s Revokable; CInsertOnce s (b, s)])
@@ -362,11 +366,16 @@ Definition apply_prim (c : cmd) (w : world) : world * list cmd :=
   | CDespawn e => (despawn e w, [])
   | CDespawnRec e => (despawn e w, [])
   | CSpawnSys s =>
-      (if is_alive s w then w <| storage := aset s true (storage w) |> <| cbs := aset s (mkCb None 0 0 false true) (cbs w) |> else w, [])
+      (* the ghost guard `spawned` is vacuous in the crate: a spawn command is applied once, for a fresh entity *)
+      (if is_alive s w && negb (memN s (spawned w)) then
+         w <| storage := aset s true (storage w) |> <| cbs := aset s (mkCb None 0 0 false true) (cbs w) |> <| spawned ::= cons s |>
+       else w, [])
   | CInsertOnce s tk =>
       (* try_insert on a despawned entity drops the bundle, i.e. the never-run reactor and what it captured *)
       (if negb (is_alive s w) then emit (EvDropSys s) w else
-       if is_alive s w then w <| storage := aset s true (storage w) |> <| cbs := aset s (mkCb (Some tk) 0 0 false true) (cbs w) |> else w, [])
+       if negb (memN s (spawned w)) then
+         w <| storage := aset s true (storage w) |> <| cbs := aset s (mkCb (Some tk) 0 0 false true) (cbs w) |> <| spawned ::= cons s |>
+       else w, [])
   | CRegister b s m =>
       (* register_reactors (react_commands.rs:28-35): prepare the handle, queue one registration per trigger, drop it *)
       let (h, w) := match m with
@@ -651,7 +660,7 @@ Fixpoint run_tops (fuel : nat) (i : N) (l : list topop) (w : world) : result wor
 
 (* world/entity-world reactor systems exist from the start (App::add_world_reactor) *)
 Definition install_static (w : world) : world :=
-  fold_left (fun w s => (reserve s w) <| storage ::= aset s true |> <| cbs ::= aset s (mkCb None 0 0 false true) |>)
+  fold_left (fun w s => (reserve s w) <| storage ::= aset s true |> <| cbs ::= aset s (mkCb None 0 0 false true) |> <| spawned ::= cons s |>)
             (map snd (p_wr P) ++ map (fun x => fst (snd x)) (p_xr P)) w.
 
 Definition run (fuel : nat) : result world := run_tops fuel 0 (p_top P) (install_static init_world).
